@@ -24,7 +24,7 @@ def run(ctx):
     for c in cases:
         k = c["op"] + ("/" + c["kind"] if "kind" in c else "")
         kinds[k] = kinds.get(k, 0) + 1
-    an, acases = ag.run(ctx, ['keyid'])   # Ages.tla: every schedule of phases on one long-lived object, each phase scaled to n operations
+    an, acases = ag.run(ctx, ['keyid', 'rekey'])   # Ages.tla: every schedule of phases on one long-lived object, each phase scaled to n operations
     return ctx.finish({
         **ag.coverage(an, acases),
         "traces_validated_against_impl": n,
